@@ -34,6 +34,7 @@ type c10Script struct {
 	burst     int  // number of simultaneous inbound connections (default 1)
 	bigWrites bool // the writer goroutines write 4077-byte bodies, 12 each
 	window    int  // vnet window (back-pressure), 0 = unlimited
+	hold0     bool // the peer is configured WithHoldTime(0): no hold or keepalive timers at all
 }
 
 func remoteHandshakeStay(w *world.World, r *world.Remote) {
@@ -127,6 +128,10 @@ var c10Scripts = []c10Script{
 			r.Drain()
 		}}
 	}},
+	// the same states with the peer configured for hold time 0
+	{name: "out-established-hold0", dial: acceptWith(remoteHandshakeStay), hold0: true},
+	{name: "in-openconfirm-hold0", passive: true, inbound: true, in: remoteOpenStall, hold0: true},
+	{name: "out-silent-hold0", dial: acceptWith(remoteSilent), hold0: true},
 }
 
 type c10Params struct {
@@ -186,6 +191,9 @@ func c10Run(p c10Params, ch vrt.Chooser, trace bool) (*world.World, *vrt.Exec, *
 		opts := []corebgp.PeerOption{corebgp.WithDialerControl(w.DialControl("P1"))}
 		if sc.passive {
 			opts = append(opts, corebgp.WithPassive())
+		}
+		if sc.hold0 {
+			opts = append(opts, corebgp.WithHoldTime(0))
 		}
 		if err := w.Server.AddPeer(peerConfig(remIP, 65001, 65002), pl, opts...); err != nil {
 			panic("harness: " + err.Error())
